@@ -347,7 +347,11 @@ static carquet_status_t flush_row_group(carquet_writer_t* writer) {
 
         parquet_column_metadata_t* meta = &chunk->metadata;
         meta->type = col_info->type;
-        meta->codec = col_info->compression;
+        /* carquet's LZ4 pages are bare LZ4 blocks.  The format calls that layout
+         * LZ4_RAW (7); codec LZ4 (5) is the deprecated Hadoop-framed variant, which
+         * other readers expect when they see that tag. */
+        meta->codec = (col_info->compression == CARQUET_COMPRESSION_LZ4)
+            ? CARQUET_COMPRESSION_LZ4_RAW : col_info->compression;
         meta->num_values = col_info->num_values;
         meta->total_compressed_size = col_info->total_compressed_size;
         meta->total_uncompressed_size = col_info->total_uncompressed_size;
